@@ -268,7 +268,7 @@ static RACE: Mutex<Race> = Mutex::new(Race {
     window: "none",
 });
 static RACE_CV: Condvar = Condvar::new();
-const RACE_WINDOW_MS: u64 = 400;
+const RACE_WINDOW_MS: u64 = 1000;
 
 fn race_point(name: &'static str, x: &str) {
     let mut r = RACE.lock().unwrap();
@@ -529,7 +529,14 @@ fn main() {
                                 }
                             }
                             let strong = snap.verif_strong_count();
-                            drop(snap);
+                            let raced = RACE.lock().unwrap().held_at.is_some();
+                            if raced {
+                                drop(snap);
+                            } else {
+                                // the compaction pinned nothing that only this snapshot holds: the
+                                // snapshot stays (the caller may try the next compaction)
+                                SNAPS.lock().unwrap().as_mut().unwrap().insert(id.clone(), snap);
+                            }
                             {
                                 let mut r = RACE.lock().unwrap();
                                 r.go = true;
